@@ -1,4 +1,4 @@
-import Sif.Proofs.C13Run
+import Sif.Proofs.C13Bank
 import Sif.Proofs.C13Examples
 /-
   C13 — margin positions agree with pool totals and are liquidated only when unhealthy.
@@ -118,7 +118,7 @@ theorem only_owner_or_admin_closes (s : State) (msg : Msg) (k : Key) (m : Mtp) (
     cases h : closeMsg Fixes.repaired s a id with
     | ok r =>
       rw [h] at hgone; simp only [Except.map] at hgone
-      obtain ⟨_, _, _, _, hfr⟩ := closeMsg_good (fx := Fixes.repaired) rfl hOK hWF h
+      obtain ⟨_, _, _, _, hfr, _⟩ := closeMsg_good (fx := Fixes.repaired) rfl hOK hWF h
       by_cases hk : k = (a, id)
       · left; rw [hk]
       · exfalso; rw [hfr k hk] at hgone; exact unchanged hgone
@@ -128,7 +128,7 @@ theorem only_owner_or_admin_closes (s : State) (msg : Msg) (k : Key) (m : Mtp) (
     cases h : adminCloseMsg Fixes.repaired s sg a id t with
     | ok r =>
       rw [h] at hgone; simp only [Except.map] at hgone
-      obtain ⟨_, _, _, hadm, _, hfr⟩ := adminCloseMsg_good (fx := Fixes.repaired) rfl hOK hWF h
+      obtain ⟨_, _, _, hadm, _, hfr, _⟩ := adminCloseMsg_good (fx := Fixes.repaired) rfl hOK hWF h
       by_cases hk : k = (a, id)
       · right; left; exact ⟨sg, t, by rw [hk], hadm⟩
       · exfalso; rw [hfr k hk] at hgone; exact unchanged hgone
@@ -138,7 +138,7 @@ theorem only_owner_or_admin_closes (s : State) (msg : Msg) (k : Key) (m : Mtp) (
     cases h : adminCloseMsg Fixes.repaired s sg a id false with
     | ok r =>
       rw [h] at hgone; simp only [Except.map] at hgone
-      obtain ⟨_, _, _, hadm, _, hfr⟩ := adminCloseMsg_good (fx := Fixes.repaired) rfl hOK hWF h
+      obtain ⟨_, _, _, hadm, _, hfr, _⟩ := adminCloseMsg_good (fx := Fixes.repaired) rfl hOK hWF h
       by_cases hk : k = (a, id)
       · right; right; exact ⟨sg, by rw [hk], hadm⟩
       · exfalso; rw [hfr k hk] at hgone; exact unchanged hgone
@@ -166,6 +166,90 @@ theorem open_requires_health (s s' : State) (m : MsgOpen) (hwf : WF s = true) (h
     exact hgt
   | error e => rw [hc] at h; simp [Except.map] at h
 
+/-- **Opening takes exactly the stated collateral from the trader**: after a successful Open the bank
+    differs from the one before in exactly two entries — the signer's balance of the collateral
+    asset went down by the stated amount and the clp module account's went up by it. -/
+theorem open_takes_exactly (s s' : State) (m : MsgOpen) (hne : m.signer ≠ s.clp.clpAddr)
+    (h : handle Fixes.repaired s (.open m) = .ok s') :
+    m.collAmt ≤ s.bank.bal m.signer m.coll ∧
+    ∀ a d, s'.bank.bal a d =
+      if a = m.signer ∧ d = m.coll then s.bank.bal a d - m.collAmt
+      else if a = s.clp.clpAddr ∧ d = m.coll then s.bank.bal a d + m.collAmt
+      else s.bank.bal a d := by
+  simp only [handle] at h
+  cases hc : openMsg Fixes.repaired s m with
+  | ok w =>
+    rw [hc] at h; simp [Except.map] at h; rw [← h]
+    have := accToMod_pointwise hne (openMsg_bank hc)
+    exact ⟨this.1, this.2.2⟩
+  | error e => rw [hc] at h; simp [Except.map] at h
+
+/-- **Closing moves value only between the position, its pool, the trader and the fund addresses**:
+    after a successful Close every bank balance outside {clp module, the closing trader, the
+    force-close fund address, the interest fund address} is unchanged, parameters and roles are
+    unchanged, every other position is unchanged, and at most one pool record changed. -/
+theorem close_moves_only_between (s s' : State) (a : Addr) (id : Nat) (hwf : WF s = true) (hok : MarginOK s = true)
+    (h : handle Fixes.repaired s (.close a id) = .ok s') :
+    (∀ x d, x ∉ [s.clp.clpAddr, a, s.params.fcAddr, s.params.iipAddr] → s'.bank.bal x d = s.bank.bal x d) ∧
+    s'.params = s.params ∧ s'.admins = s.admins ∧
+    (∀ k, k ≠ (a, id) → getMtpL s'.mtps k = getMtpL s.mtps k) ∧
+    (∃ sym, ∀ y, y ≠ sym → getPoolL s'.pools y = getPoolL s.pools y) := by
+  simp only [handle] at h
+  cases hc : closeMsg Fixes.repaired s a id with
+  | ok r =>
+    rw [hc] at h; simp [Except.map] at h; rw [← h]
+    have hOK := (MarginOK_iff s).mp hok
+    have hWF := (WF_iff s).mp hwf
+    have mv := closeMsg_moves (fx := Fixes.repaired) rfl hOK hWF hc
+    obtain ⟨_, _, _, _, hfr, hpf⟩ := closeMsg_good (fx := Fixes.repaired) rfl hOK hWF hc
+    exact ⟨mv.bal, mv.params, mv.admins, hfr, hpf⟩
+  | error e => rw [hc] at h; simp [Except.map] at h
+
+/-- …and the same for a close by an administrator (with or without the fund cut). -/
+theorem adminClose_moves_only_between (s s' : State) (sg a : Addr) (id : Nat) (t : Bool) (hwf : WF s = true) (hok : MarginOK s = true)
+    (h : handle Fixes.repaired s (.adminClose sg a id t) = .ok s') :
+    (∀ x d, x ∉ [s.clp.clpAddr, a, s.params.fcAddr, s.params.iipAddr] → s'.bank.bal x d = s.bank.bal x d) ∧
+    s'.params = s.params ∧ s'.admins = s.admins ∧
+    (∀ k, k ≠ (a, id) → getMtpL s'.mtps k = getMtpL s.mtps k) ∧
+    (∃ sym, ∀ y, y ≠ sym → getPoolL s'.pools y = getPoolL s.pools y) := by
+  simp only [handle] at h
+  cases hc : adminCloseMsg Fixes.repaired s sg a id t with
+  | ok r =>
+    rw [hc] at h; simp [Except.map] at h; rw [← h]
+    have hOK := (MarginOK_iff s).mp hok
+    have hWF := (WF_iff s).mp hwf
+    have mv := adminCloseMsg_moves (fx := Fixes.repaired) rfl hOK hWF hc
+    obtain ⟨_, _, _, _, _, hfr, hpf⟩ := adminCloseMsg_good (fx := Fixes.repaired) rfl hOK hWF hc
+    exact ⟨mv.bal, mv.params, mv.admins, hfr, hpf⟩
+  | error e => rw [hc] at h; simp [Except.map] at h
+
+/-- **Block processing force-closes a position only when its health is at or below the safety
+    factor.**  `processMtp` is what the BeginBlocker does for one position at an epoch boundary, on
+    the world it has at that moment (`syncedW`: the position as stored, the shared in-memory pool
+    agreeing with the stored pool on the ledger).  If the position is gone afterwards, the health
+    the chain computes for it in that world is not above the safety factor. -/
+theorem forced_only_unhealthy (w : W) (hwf : WF w.s = true) (hok : MarginOK w.s = true) (hs : syncedW w = true)
+    (h0 : w.s.epochPosition = 0)
+    (hgone : getMtpL (processMtp Fixes.repaired w).s.mtps w.mtp.key = none) :
+    healthAbove w.s w.mtp w.pool = false := by
+  obtain ⟨h, hh, hle⟩ := processMtp_removed (fx := Fixes.repaired) rfl rfl (Good.of_synced hwf hok hs) h0 hgone
+  unfold healthAbove healthOf
+  rw [hh]
+  simp only [decide_eq_false_iff_not]
+  intro hlt
+  have h1 : w.s.params.safetyFactor.i < h.i := hlt
+  have h2 : h.i ≤ w.s.params.safetyFactor.i := hle
+  omega
+
+/-- …and a position that is not removed is still stored under its key: processing never loses one. -/
+theorem processed_position_kept_or_liquidated (w : W) (hwf : WF w.s = true) (hok : MarginOK w.s = true) (hs : syncedW w = true)
+    (h0 : w.s.epochPosition = 0) (habove : healthAbove w.s w.mtp w.pool = true) :
+    getMtpL (processMtp Fixes.repaired w).s.mtps w.mtp.key ≠ none := by
+  intro hgone
+  have := forced_only_unhealthy w hwf hok hs h0 hgone
+  rw [this] at habove
+  cases habove
+
 /-! ### non-vacuity: a concrete pool, trader and history meet the hypotheses and take the success paths -/
 
 example : WF Ex.s0 = true ∧ MarginOK Ex.s0 = true ∧ Ex.s0.mtpCount + 1 < u64 := by decide +kernel
@@ -179,6 +263,14 @@ example : Ex.isOk (handle Fixes.repaired Ex.s1 (.adminClose "trader" "trader" 1 
 example : (match beginBlocker Fixes.repaired Ex.s2 Ex.rates with
     | .ok s' => s'.mtps.map (fun m => m.custody) | .error _ => []) = [21529] := by decide +kernel
 example : openHealthOK Ex.s1 "trader" 1 = true := by decide +kernel
+/- the world of the hook for the example position: synced, at an epoch boundary; with the safety factor
+   raised to 100 the position is liquidated (and was not above it), with 1.05 it is kept -/
+example : syncedW { s := Ex.s2, pool := Ex.s2.pools.head!, mtp := Ex.s2.mtps.head! } = true ∧ Ex.s2.epochPosition = 0 := by
+  decide +kernel
+example : (let s := { Ex.s2 with params := { Ex.s2.params with safetyFactor := ⟨100 * 10^18⟩ } }
+    (processMtp Fixes.repaired { s := s, pool := s.pools.head!, mtp := s.mtps.head! }).s.mtps.length) = 0 := by decide +kernel
+example : (processMtp Fixes.repaired { s := Ex.s2, pool := Ex.s2.pools.head!, mtp := Ex.s2.mtps.head! }).s.mtps.length = 1 := by
+  decide +kernel
 
 /-! ### the pinned code violates the property (each repair is needed) -/
 
